@@ -102,22 +102,32 @@ impl QueryEngine {
         Ok(engine)
     }
 
-    /// Register `metrics` for the given chunk paths, then execute the operation.
+    /// Register `metrics` for the given chunk paths, plan `sql` against that
+    /// registration, then execute the operation on the planned statement.
     ///
-    /// The registration lock is released before `operation` runs so that slow
-    /// queries do not block other concurrent requests from registering their
-    /// own chunk sets.
+    /// The statement is planned while the registration lock is still held, so
+    /// `metrics` resolves to the table registered for this request and not to
+    /// one a concurrent request registers afterwards. The lock is released
+    /// before `operation` runs so that slow queries do not block other
+    /// concurrent requests from registering their own chunk sets; the planned
+    /// statement keeps the table it resolved.
     pub async fn with_metrics_table<F, Fut, T>(
         &self,
         chunk_paths: &[String],
+        sql: &str,
         operation: F,
     ) -> Result<T>
     where
-        F: FnOnce() -> Fut,
+        F: FnOnce(DataFrame) -> Fut,
         Fut: Future<Output = Result<T>>,
     {
-        self.register_metrics_table_for_chunks(chunk_paths).await?;
-        operation().await
+        let df = {
+            let _guard = self.metrics_table_query_lock.lock().await;
+            self.register_metrics_table_for_chunks_locked(chunk_paths)
+                .await?;
+            self.plan_read_only_sql_locked(sql).await?
+        };
+        operation(df).await
     }
 
     /// Register the logical `metrics` table over a set of chunk paths.
@@ -253,7 +263,17 @@ impl QueryEngine {
     /// DDL, DML (including `COPY`) and session statements are rejected instead of
     /// being executed, so SQL submitted through the query interfaces cannot alter
     /// the catalog, change session settings or write to object storage.
+    ///
+    /// Planning resolves `metrics`, so it takes the registration lock: a
+    /// statement is never planned while another request is between
+    /// deregistering and re-registering the table.
     async fn plan_read_only_sql(&self, sql: &str) -> Result<DataFrame> {
+        let _guard = self.metrics_table_query_lock.lock().await;
+        self.plan_read_only_sql_locked(sql).await
+    }
+
+    /// `plan_read_only_sql` for callers that already hold the registration lock.
+    async fn plan_read_only_sql_locked(&self, sql: &str) -> Result<DataFrame> {
         let options = SQLOptions::new()
             .with_allow_ddl(false)
             .with_allow_dml(false)
@@ -264,6 +284,11 @@ impl QueryEngine {
     /// Execute a SQL query
     pub async fn execute(&self, sql: &str) -> Result<Vec<RecordBatch>> {
         let df = self.plan_read_only_sql(sql).await?;
+        self.execute_planned(df).await
+    }
+
+    /// Execute an already planned query
+    pub async fn execute_planned(&self, df: DataFrame) -> Result<Vec<RecordBatch>> {
         let batches = df.collect().await?;
         Ok(batches)
     }
@@ -275,8 +300,19 @@ impl QueryEngine {
         tenant_id: &str,
         index_controller: Arc<crate::adaptive_index::AdaptiveIndexController>,
     ) -> Result<Vec<RecordBatch>> {
-        // 1. Analyze query for filter predicates
         let df = self.plan_read_only_sql(sql).await?;
+        self.execute_planned_with_indexes(df, tenant_id, index_controller)
+            .await
+    }
+
+    /// Execute an already planned query with index awareness for adaptive indexing
+    pub async fn execute_planned_with_indexes(
+        &self,
+        df: DataFrame,
+        tenant_id: &str,
+        index_controller: Arc<crate::adaptive_index::AdaptiveIndexController>,
+    ) -> Result<Vec<RecordBatch>> {
+        // 1. Analyze query for filter predicates
         let plan = df.logical_plan();
         let filter_columns = Self::extract_filter_columns(plan);
 
